@@ -151,6 +151,13 @@ struct Array {
     }
 
     void operator+=(Type_T &&item) {
+        if ((Size() == Capacity()) && isOwnItem(&item)) {
+            // The item is one of this array's own; it has to be taken out before the storage is replaced.
+            Type_T tmp{Memory::Move(item)};
+            *this += Memory::Move(tmp);
+            return;
+        }
+
 #ifdef QENTEM_VERIF
         // Verification hook (off by default): exact-fit growth, so that [Size, Capacity) is empty and a
         // sanitizer's redzone borders the logical end of the array.
@@ -167,6 +174,13 @@ struct Array {
     }
 
     inline void operator+=(const Type_T &item) {
+        if ((Size() == Capacity()) && isOwnItem(&item)) {
+            // The item is one of this array's own; it has to be copied before the storage is replaced.
+            Type_T tmp{item};
+            *this += Memory::Move(tmp);
+            return;
+        }
+
 #ifdef QENTEM_VERIF
         // Verification hook (off by default): exact-fit growth, so that [Size, Capacity) is empty and a
         // sanitizer's redzone borders the logical end of the array.
@@ -364,6 +378,10 @@ struct Array {
   private:
     void setStorage(Type_T *ptr) noexcept {
         storage_ = ptr;
+    }
+
+    inline bool isOwnItem(const Type_T *item) const noexcept {
+        return ((item >= First()) && (item < End()));
     }
 
     Type_T *allocate() {
